@@ -175,7 +175,7 @@ Definition extractArgs (l : bytes) : list arg :=
   | _ =>
       map (fun a =>
              let a := trim space a in
-             if isStatic a then mkArg (trim quotes a) [] true
+             if isStatic a then mkArg (unquote_with quotes a) [] true
              else let '(v, set) := extractSet a in mkArg v set false)
           (split_comma l)
   end.
@@ -223,7 +223,7 @@ Definition parseCondExpr (r : re) (n : nat) (expr : bytes) : bytes * bytes * boo
         | 33%N :: l' => (l', bs "true", false, true, opNq)
         | _ => let r_ := trim space (g m 3) in (l, r_, isStatic l, isStatic r_, parseOp (g m 2))
         end in
-      (trim quotes l, trim quotes r_, sl, sr, op)
+      (unquote_with quotes l, unquote_with quotes r_, sl, sr, op)
   end.
 
 (* parseCaseExpr *)
@@ -341,7 +341,7 @@ Definition simple_stmt (ctl : bytes) : node + perror :=
               end
           end
       end in
-    if isStatic s then inl (set_assign node0 d (trim quotes s) i true [] [])
+    if isStatic s then inl (set_assign node0 d (unquote_with quotes s) i true [] [])
     else let '(s1, ms) := extractMods s in
          let '(s2, sub_) := extractSet s1 in
          inl (set_assign node0 d s2 i false sub_ ms)
@@ -384,7 +384,7 @@ Definition simple_stmt (ctl : bytes) : node + perror :=
                 match sub re_reAssignV2V ncap_reAssignV2V ctl with
                 | Some m =>
                     let d := replaceQB (g m 1) in
-                    if isStatic (g m 2) then inl (set_assign node0 d (trim quotes (g m 2)) [] true [] [])
+                    if isStatic (g m 2) then inl (set_assign node0 d (unquote_with quotes (g m 2)) [] true [] [])
                     else let '(s1, ms) := extractMods (g m 2) in
                          let '(s2, sub_) := extractSet s1 in
                          inl (set_assign node0 d s2 [] false sub_ ms)
